@@ -28,6 +28,7 @@ RULE = ("case = one cell (operation, key container, value container, dtype class
         "write-through-to-input, later-call-changed, accessor-alias, grouping-changed; non-trivial = "
         "every cell")
 ASSUMPTIONS = [
+    'the positional-mask role holds repeated and negative positions',
     "sub-space 'extra-operations': composite helpers (subset_ratio, ratio, density, agg of two inputs, margins, crosstab), class-level / copy-constructed calls, positional masks, emas entry points, numba kernels with one and two blocks, nanops 1-D / 2-D, nb_dot, bools_to_categorical, pretty_cut, facade incl. iteration x every container of every argument role",
     "results are mutated only through handles that are writable as returned and through public "
     "setters, never by flipping flags.writeable (that is the caller defeating the protection)",
